@@ -377,16 +377,37 @@ func (c *fctx) assign(st ast.Stmt) {
 			}
 		}
 	}
-	if len(as.Rhs) != 1 {
-		unbind()
-		return
-	}
 	bind := func(l ast.Expr, f string) {
 		if id, ok := l.(*ast.Ident); ok && id.Name != "_" {
 			if o := c.objOf(id); o != nil {
 				c.binds[o] = f
 			}
 		}
+	}
+	if len(as.Rhs) != 1 {
+		// a, b := x, y : pairwise
+		var fs []string
+		if len(as.Rhs) == len(as.Lhs) {
+			for _, r := range as.Rhs {
+				f := ""
+				if call, ok := r.(*ast.CallExpr); ok {
+					g, k := c.call(call)
+					if g != "" && (k == 'b' || k == 'e') {
+						f = g
+					}
+				} else {
+					f = c.cond(r)
+				}
+				fs = append(fs, f)
+			}
+		}
+		unbind()
+		for i, f := range fs {
+			if f != "" {
+				bind(as.Lhs[i], f)
+			}
+		}
+		return
 	}
 	if call, ok := as.Rhs[0].(*ast.CallExpr); ok {
 		f, k := c.call(call)
